@@ -24,6 +24,8 @@ def monitors(ctx):
 
 def run(ctx):
     monitor.enable(*monitors(ctx))
+    from .. import w_suite
+    w_suite.maybe(ctx)      # thorough tier: the repository's own tests under this property's monitors
     ctx.floor('C04.forwards_calls', 1000)
     ctx.floor('C04.declared_wrappers', 500)
     ctx.floor('C04.executed', 300)
